@@ -83,7 +83,22 @@ def _run_iteration(repo, worker, env, facts, is_first, is_last, last_exact=False
         sx_pre.step(s)
     env = {k: v for k, v in ev_pre.env.items() if not any(sym.startswith("?") for sym in v.symbols())}
 
+    # flags holding a comparison of the loop state (is_first = first_s == 0 ...), assigned in the loop body
+    flags = {}
+    for s_ in lp.body:
+        if isinstance(s_, ast.Assign) and len(s_.targets) == 1:
+            tg, vl = s_.targets[0], s_.value
+            pairs = list(zip(tg.elts, vl.elts)) if isinstance(tg, ast.Tuple) and isinstance(vl, ast.Tuple) and len(tg.elts) == len(vl.elts) else [(tg, vl)]
+            for t_, v_ in pairs:
+                if isinstance(t_, ast.Name) and isinstance(v_, ast.Compare):
+                    flags[t_.id] = v_
+
     def assume(t):
+        if isinstance(t, ast.Name) and t.id in flags:
+            return assume(flags[t.id])
+        if isinstance(t, ast.UnaryOp) and isinstance(t.op, ast.Not):
+            d_ = assume(t.operand)
+            return None if d_ is None else not d_
         if isinstance(t, ast.Compare) and len(t.ops) == 1:
             l, r, op = loc_name(t.left), t.comparators[0], t.ops[0]
             if l == "first_s" and const_value(r) == (True, 0) and isinstance(op, (ast.Eq, ast.NotEq, ast.Gt)):
@@ -123,6 +138,14 @@ def _run_iteration(repo, worker, env, facts, is_first, is_last, last_exact=False
             if ev.decide(s.test) is None:
                 raise AnalysisError(f"{worker.qualname}: the test `{src(s.test)}` selecting the kept range is not understood")
         sx.step(s)
+        if isinstance(s, ast.Assign) and len(s.targets) == 1 and isinstance(s.targets[0], ast.Name) and isinstance(s.value, ast.Call) and call_name(s.value) == "slice" \
+                and len(s.value.args) == 2:
+            # the kept range held in a slice object: slice(a, b) plays ind2save[0], ind2save[1]
+            nm_ = s.targets[0].id
+            try:
+                ev.env[f"{nm_}[0]"], ev.env[f"{nm_}[1]"] = ev.ev(s.value.args[0]), ev.ev(s.value.args[1])
+            except Undecided:
+                pass
     if "stride" not in snap:
         raise AnalysisError(f"{worker.qualname}: advance of first_s not found in the batch loop")
     return snap
@@ -202,11 +225,25 @@ def d1_tiling(ctx):
             for t, pol in cfgw.guards(cfgw.node_for(s)):
                 gs += conjuncts(t, pol)
             is0 = any(isinstance(t, ast.Compare) and loc_name(t.left) == "i_chunk" and const_value(t.comparators[0]) == (True, 0) and pol == isinstance(t.ops[0], ast.Eq) for t, pol in gs)
+            not0 = any(isinstance(t, ast.Compare) and loc_name(t.left) == "i_chunk" and const_value(t.comparators[0]) == (True, 0) and pol != isinstance(t.ops[0], ast.Eq) for t, pol in gs)
             try:
                 p = ev0.ev(s.args[0])
             except Undecided as e:
                 raise AnalysisError(f"seek argument not evaluable: {e}")
-            seeks[(f, is0)] = (p, s)
+            if is0 or not0:
+                seeks[(f, is0)] = (p, s)
+            else:
+                # one seek for every worker: worker 0 has n_batch == 0 and first_s == 0
+                ev00 = Evaluator(env=dict(env, i_chunk=Poly.const(0)), facts=facts.copy(), resolve=lambda x: repo.resolve_expr(worker, x))
+                sx00 = SymExec(ev00, on_undecided="havoc")
+                for s_pre in pre:
+                    sx00.step(s_pre)
+                try:
+                    p00 = ev00.ev(s.args[0])
+                except Undecided as e:
+                    raise AnalysisError(f"seek argument not evaluable for worker 0: {e}")
+                seeks[(f, True)] = (p00, s)
+                seeks[(f, False)] = (p, s)
     off, ncout, nbytes = Poly.sym("offset"), env.get("nc_out", Poly.sym("nc_out")), env.get("nbytes", Poly.sym("nbytes"))
     # offset may be havoc'ed by the append branch: compare modulo the symbol it got
     offp = env.get("offset", Poly.sym("offset"))
@@ -232,8 +269,21 @@ def d1_tiling(ctx):
     okcols = bool(main) and isinstance(main[0].func.value.func.value, ast.Subscript) and norm(main[0].func.value.func.value.slice) == norm(ast.parse("x[:, :nc_out]", mode="eval").body.slice)
     ctx.check(okd and okw and okcols, worker, wr[0] if wr else lp, "nbytes = dtype(1).nbytes ; chunk[:, :nc_out].astype(dtype).tofile(fid)", "bytes per row used for seeking equal bytes per row written",
               "the item size / column count used for the seek differs from what is written (astype(dtype), [:, :nc_out])", key="dtype")
-    cut = [s for s in lp.body if isinstance(s, ast.Assign) and loc_name(s.targets[0]) == "chunk" and "slice(*ind2save)" in src(s.value)]
-    okcut = bool(cut) and any(isinstance(x, ast.Subscript) and isinstance(x.slice, ast.Tuple) and "slice(*ind2save)" in src(x.slice.elts[0]) for x in find(cut[0].value, ast.Subscript))
+    ind_is_slice = any(isinstance(s_, ast.Assign) and loc_name(s_.targets[0]) == "ind2save" and isinstance(s_.value, ast.Call) and call_name(s_.value) == "slice" for s_ in lp.body)
+
+    def is_cut(x):
+        if not (isinstance(x, ast.Subscript) and isinstance(x.slice, ast.Tuple) and len(x.slice.elts) == 2):
+            return False
+        r0, c0 = x.slice.elts
+        full = isinstance(c0, ast.Slice) and c0.lower is None and c0.upper is None and c0.step is None
+        return full and ("slice(*ind2save)" in src(r0) or (ind_is_slice and loc_name(r0) == "ind2save"))
+    cut = [s for s in lp.body if isinstance(s, ast.Assign) and loc_name(s.targets[0]) == "chunk" and any(is_cut(x) for x in find(s.value, ast.Subscript))]
+    okcut = bool(cut)
+    if okcut:
+        # the cut is taken on the (samples, channels) array: at or after the transposition that follows the re-attachment of the sync columns
+        cfg_c = CFG(worker.node)
+        tr = [s_ for s_ in lp.body if isinstance(s_, ast.Assign) and loc_name(s_.targets[0]) == "chunk" and "r_[" in src(s_.value) and ".T" in src(s_.value)]
+        okcut = bool(tr) and (cut[0] is tr[0] or cfg_c.reachable(cfg_c.node_for(tr[0]), cfg_c.node_for(cut[0]), avoid=[cfg_c.node_for(lp)]))
     ctx.check(okcut, worker, cut[0] if cut else lp, cut[0] if cut else "chunk[slice(*ind2save), :]", "the kept range is applied along samples (rows after the transpose)",
               "the kept range is not applied to the sample axis of the written array", key="cut")
     # RMS rows
@@ -273,28 +323,49 @@ def d2_sync(ctx):
     du = DefUse(worker.node)
     cfg = du.cfg
     head = cfg.node_for(lp)
+    def raw_region(e, at, depth=0):
+        """(rows slice, column slice) of the reader read an expression is a view of: follows .T, names, and successive subscripts down to _sr[rows, cols]."""
+        if depth > 8 or e is None:
+            return None
+        if isinstance(e, ast.Attribute) and e.attr == "T":
+            return raw_region(e.value, at, depth + 1)
+        if isinstance(e, ast.Name):
+            ds = du.strong_reaching(e.id, at)
+            if len(ds) == 1 and ds[0].kind == "assign" and ds[0].value is not None and ds[0].unpack_index is None:
+                return raw_region(ds[0].value, ds[0].stmt, depth + 1)
+            return None
+        if isinstance(e, ast.Subscript):
+            if loc_name(e.value) == "_sr" and isinstance(e.slice, ast.Tuple) and len(e.slice.elts) == 2:
+                return (e.slice.elts[0], e.slice.elts[1])
+            inner = raw_region(e.value, at, depth + 1)
+            if inner is None:
+                return None
+            rows, cols = inner
+            el = e.slice.elts if isinstance(e.slice, ast.Tuple) else [e.slice]
+            if len(el) == 2 and isinstance(el[0], ast.Slice) and el[0].lower is None and el[0].upper is None and isinstance(cols, ast.Slice) and cols.lower is None and cols.upper is None:
+                return (rows, el[1])     # a column cut of a whole-row read
+            return None
+        return None
     concat = None
+    parts = None
     for s in lp.body:
         if isinstance(s, ast.Assign) and loc_name(s.targets[0]) == "chunk":
-            for x in find(s.value, ast.Subscript):
-                if loc_name(x.value) == "_sr" and isinstance(x.slice, ast.Tuple) and isinstance(x.slice.elts[1], ast.Slice) and loc_name(x.slice.elts[1].lower) == "ncv" \
-                        and x.slice.elts[1].upper is None:
-                    concat = (s, x)
+            for x in ast.walk(s.value):
+                if isinstance(x, ast.Subscript) and isinstance(x.value, ast.Attribute) and x.value.attr == "r_":
+                    pp = x.slice.elts if isinstance(x.slice, ast.Tuple) else [x.slice]
+                    if len(pp) == 2:
+                        reg = raw_region(pp[1], s)
+                        if reg is not None and isinstance(reg[1], ast.Slice) and loc_name(reg[1].lower) == "ncv" and reg[1].upper is None:
+                            concat, parts = (s, reg), pp
     if concat is None:
         ctx.violation(worker, lp, "chunk = r_[chunk, _sr[first_s:last_s, ncv:].T].T", "the sync columns are not re-attached from the raw reader", key="no-sync")
         return
-    cs, syncread = concat
-    rows = syncread.slice.elts[0]
-    ctx.check(isinstance(rows, ast.Slice) and loc_name(rows.lower) == "first_s" and loc_name(rows.upper) == "last_s", worker, cs, syncread, "sync rows are the rows of the data read",
+    cs, (rows, _cols) = concat
+    ctx.check(isinstance(rows, ast.Slice) and loc_name(rows.lower) == "first_s" and loc_name(rows.upper) == "last_s", worker, cs, cs, "sync rows are the rows of the data read",
               "sync is read at other rows than the data", key="sync-rows")
     # order in concatenation: data first, sync last
-    v = cs.value
-    parts = None
-    for x in ast.walk(v):
-        if isinstance(x, ast.Subscript) and isinstance(x.value, ast.Attribute) and x.value.attr == "r_":
-            parts = x.slice.elts if isinstance(x.slice, ast.Tuple) else [x.slice]
-    ctx.check(parts is not None and len(parts) == 2 and loc_name(parts[0]) == "chunk" and "_sr[" in src(parts[1]), worker, cs, cs, "sync columns follow the voltage columns",
-              "sync is not appended after the voltage channels", key="sync-last")
+    ctx.check(parts is not None and len(parts) == 2 and chain_root(parts[0])[0] == "chunk" or (isinstance(parts[0], ast.BinOp) and any(chain_root(x)[0] == "chunk" for x in (parts[0].left, parts[0].right))),
+              worker, cs, cs, "sync columns follow the voltage columns", "sync is not appended after the voltage channels", key="sync-last")
     cn = cfg.node_for(cs)
     intnorm_ok = False
     ind = [d for d in du.defs if d.var == "intnorm" and d.kind == "assign"]
@@ -353,14 +424,25 @@ def d2_sync(ctx):
                 mm.append(n)
     if not mm:
         ctx.violation(worker, lp, "chunk * mute_saturation", "the saturation mute gain is never applied to the output", key="mute-missing")
+    applied_to_output = False
     for m in mm:
         mn = cfg.node_for(m)
-        ctx.check(cfg.reachable(mn, cn, avoid=[head]) and not cfg.reachable(cn, mn, avoid=[head]), worker, m, m, "mute gain is applied to the voltage channels before the sync is re-attached",
+        inside_first_part = parts is not None and any(x is m for x in ast.walk(parts[0]))
+        feeds_output = inside_first_part or (isinstance(mn.stmt, ast.Assign) and loc_name(mn.stmt.targets[0]) == "chunk") or isinstance(mn.stmt, ast.AugAssign)
+        if not feeds_output:
+            continue   # e.g. the RMS of the muted traces: not part of what is written
+        applied_to_output = True
+        before = inside_first_part or (cfg.reachable(mn, cn, avoid=[head]) and not cfg.reachable(cn, mn, avoid=[head]))
+        ctx.check(before, worker, m, m, "mute gain is applied to the voltage channels before the sync is re-attached",
                   "the mute gain is applied after the sync columns were re-attached: sync words inside saturated stretches are zeroed", key="mute-order")
         # broadcast along channels: mute[np.newaxis, :] on (ncv, ns)
         mu = [x for x in (m.left, m.right) if loc_name(chain_target(x)) in mute_names][0]
         okb = isinstance(mu, ast.Subscript) and isinstance(mu.slice, ast.Tuple) and len(mu.slice.elts) == 2 and "newaxis" in src(mu.slice.elts[0]) and isinstance(mu.slice.elts[1], ast.Slice)
-        ctx.check(okb, worker, m, m, "gain is broadcast across channels (one value per sample)", "gain is broadcast along the wrong axis of the (channels, samples) array", key="mute-axis")
+        okb = okb or (before and isinstance(mu, ast.Name))   # a (ns,) vector against the (channels, samples) array broadcasts along samples
+        if before:
+            ctx.check(okb, worker, m, m, "gain is broadcast across channels (one value per sample)", "gain is broadcast along the wrong axis of the (channels, samples) array", key="mute-axis")
+    if mm and not applied_to_output:
+        ctx.violation(worker, lp, "chunk * mute_saturation", "the saturation mute gain is computed but never applied to what is written", key="mute-missing")
     wr = [c for c in find(lp, ast.Call) if call_name(c) == "tofile" and c.args and loc_name(c.args[0]) == "fid" and "tile" not in src(c)]
     ctx.check(bool(wr) and chain_root(wr[0].func.value)[0] == "chunk", worker, wr[0] if wr else lp, wr[0] if wr else "tofile", "the array carrying the sync is what is written", "the written array is not the one carrying the sync",
               key="written")
@@ -394,6 +476,18 @@ def d3_qc(ctx):
               "the flag file is not opened as a writable memmap: flags of a worker are lost", key="sat-mmap")
     rm = [c for c in find(lp, ast.Call) if call_name(c) == "rms"]
     okr = bool(rm) and const_value(kwarg(rm[0], "axis")) == (True, 0) and norm(rm[0].args[0]) == norm(ast.parse("chunk[:, :ncv]", mode="eval").body)
+    if rm and not okr:
+        # before the transposition the traces are (channels, samples): rms over the last axis of the (muted) voltage traces
+        a0 = rm[0].args[0]
+        base = a0
+        if isinstance(a0, ast.BinOp) and isinstance(a0.op, ast.Mult):
+            base = a0.left if chain_root(a0.left)[0] == "chunk" else a0.right
+        pre_concat = True
+        for s_ in lp.body:
+            if isinstance(s_, ast.Assign) and loc_name(s_.targets[0]) == "chunk" and "r_" in src(s_.value):
+                cfg_ = DefUse(worker.node).cfg
+                pre_concat = not cfg_.reachable(cfg_.node_for(s_), cfg_.node_for(rm[0]), avoid=[cfg_.node_for(lp)])
+        okr = const_value(kwarg(rm[0], "axis")) in ((True, -1), (True, 1)) and loc_name(base) == "chunk" and pre_concat
     ctx.check(okr, worker, rm[0] if rm else lp, rm[0] if rm else "rms", "one RMS value per voltage channel per batch", "batch RMS is not rms(chunk[:, :ncv], axis=0)", key="rms")
     tf = [c for c in find(lp, ast.Call) if call_name(c) == "tofile" and c.args and loc_name(c.args[0]) in ("aid", "tid")]
     ctx.check(len(tf) == 2 and all("float32" in src(c) for c in tf), worker, tf[0] if tf else lp, f"{len(tf)} QC writes", "RMS and time are written as float32 (4 bytes, as the seeks assume)",
